@@ -57,6 +57,7 @@ var toolSources = map[string][2]string{
 	"unknownproc": {"##!> frobnicate\n", "##!> frobnicate\n"},
 	"badcmdline":  {"##!>cmdline vms\nx\n##!<\n", "##!> cmdline vms\n  x\n##!<\n"},
 	"strayend":    {"s\n##!<\n", "s\n##!<\n"},
+	"badcmdlineU": {"##!> cmdline  Windows\nx\n##!<\n", "##!> cmdline Windows\n  x\n##!<\n"},
 	"badflag":     {"##!+ x\ns\n", "##!+ x\ns\n"},
 	"oddpairs":    {"##!> include words -- a\n", "##!> include words -- a\n"},
 	"inblock":     {"##!> assemble\na(\n##!<\n", "##!> assemble\n  a(\n##!<\n"},
@@ -130,6 +131,8 @@ func (e *toolEnv) concrete(t *toolTree) Tree {
 		"crs/README.md":                                         "# OWASP CRS ver.4.0.0\nSecComponentSignature \"OWASP_CRS/4.0.0\"\n",
 		"crs/" + toolSetupPath + ".tmp":                         "SecComponentSignature \"OWASP_CRS/4.0.0\"\n",
 		"crs/rules/REQUEST-933-APPLICATION-ATTACK-PHP.conf.tmp": "SecRule ARGS \"@rx keep\" \\\n    \"id:932100,\\\n    ver:'OWASP_CRS/4.0.0'\"\n",
+		"crs/regex-assembly/.gitattributes":                     "*.ra text\n",
+		filepath.Dir("crs/"+toolTestPath) + "/9321000.yaml":     "tests:\n  - test_id: 4\n  - test_id: 4\n",
 		"crs/rules/notes.txt":                                   "id:932100 \"@rx decoy\" \\\n",
 		"crs/rules/REQUEST-933-OTHER.conf.bak":                  "SecRule ARGS \"@rx keep\" \\\n    \"id:933100,\\\n    ver:'OWASP_CRS/4.0.0'\"\n",
 		"crs/rules/REQUEST-933-APPLICATION-ATTACK-PHP.conf":     "SecRule ARGS \"@rx keep\" \\\n    \"id:933100,\\\n    block\"\n",
@@ -452,6 +455,17 @@ func toolReplay(c *Ctx, env *toolEnv, name string, tc *toolCase, cli *int64) {
 			c.infra(fmt.Errorf("compare prints %q: the verdict lines are not recognised (wording changed?)", firstLine(r.Stdout)))
 		} else if strings.Join(got, "; ") != strings.Join(want, "; ") {
 			bad(fmt.Sprintf("compare reports [%s], the model says [%s]", strings.Join(got, "; "), strings.Join(want, "; ")), nil)
+		}
+		if tc.Cmd[len(tc.Cmd)-1] == false && len(got) > 0 {
+			changed := 0
+			for _, g := range got {
+				if strings.HasSuffix(g, "has changed!") {
+					changed++
+				}
+			}
+			if n := strings.Count(r.Stdout, "first difference"); n != changed {
+				bad(fmt.Sprintf("compare reports %d changed rules but shows %d difference reports (each changed rule has its own, as in the single-rule command)", changed, n), nil)
+			}
 		}
 		if strings.Contains(r.Stdout, "::error::All rules need to be up to date") != tc.GhError {
 			bad(fmt.Sprintf("the closing ::error:: line of compare --all -o github: printed=%v, the model says %v", !tc.GhError, tc.GhError), nil)
